@@ -72,7 +72,12 @@ static void PatternCase(size_t i, mutx::Case & c)
    if (ref.inDomain && stA.IsError()) c.Fail("setpattern-rejected:" + shape, "well-formed pattern " + verif::JStr(pat) + " rejected: " + stA());
    if (stA.IsError()) ADD(setPatternFailed, 1);
 
+   // C: an object that is handed ITS OWN pattern again (the argument aliases the object's state), and is then assigned to itself: must behave like A
+   StringMatcher C(pat.c_str(), true); const status_t stC = C.SetPattern(C.GetPattern(), true); { const StringMatcher & self = C; C = self; }
+   if (stA.IsOK() != stC.IsOK() || std::string(C.GetPattern()()) != pat) c.Fail("reuse-differs:SetPattern(own-pattern):" + shape, "pattern " + verif::JStr(pat) + ": sm.SetPattern(sm.GetPattern()) returned " + stC() + " (fresh object: " + stA() + ") and GetPattern() is now " + verif::JStr(C.GetPattern()()));
+
    const bool uniq = A.IsPatternUnique(), uv = A.IsPatternListOfUniqueValues();
+   if (!c.failed && (uniq != C.IsPatternUnique() || uv != C.IsPatternListOfUniqueValues())) c.Fail("reuse-differs:flags(own-pattern):" + shape, "pattern " + verif::JStr(pat) + ": IsPatternUnique/IsPatternListOfUniqueValues differ after sm.SetPattern(sm.GetPattern())");
    if (uniq != B.IsPatternUnique() || uv != B.IsPatternListOfUniqueValues()) c.Fail("reuse-differs:flags:" + shape, "pattern " + verif::JStr(pat) + ": IsPatternUnique/IsPatternListOfUniqueValues differ between a fresh and a re-used object");
    const std::string target = RemoveEscapeChars(pat.c_str()).Cstr();
 
@@ -82,6 +87,7 @@ static void PatternCase(size_t i, mutx::Case & c)
       const std::string & s = g_subjects[j];
       const bool a = A.Match(s.c_str()), b = B.Match(s.c_str());
       if (a != b && !c.failed) c.Fail("reuse-differs:Match:" + shape, "pattern " + verif::JStr(pat) + " subject " + verif::JStr(s) + verif::Fmt(": fresh object %d, re-used object %d", (int)a, (int)b));
+      if (!c.failed && stC.IsOK() && C.Match(s.c_str()) != a) c.Fail("reuse-differs:Match(own-pattern):" + shape, "pattern " + verif::JStr(pat) + " subject " + verif::JStr(s) + verif::Fmt(": fresh object %d, object re-set to its own pattern %d", (int)a, (int)!a));
       if (a) { bits[j] = '1'; if (nMatched < 2) firstTwo += (nMatched ? ", " : "") + verif::JStr(s); nMatched++; }
       if (ref.inDomain && refmatch::SubjectInDomain(ref, s)) {
          const bool r = refmatch::Match(ref, s); compared++;
@@ -97,7 +103,7 @@ static void PatternCase(size_t i, mutx::Case & c)
    // "can this pattern match more than one string" must answer yes whenever two different strings match -- for EVERY pattern
    if (uniq && nMatched > 1) c.Fail("unique-but-matches-many:" + shape, "pattern " + verif::JStr(pat) + verif::Fmt(" IsPatternUnique()=true but %llu distinct subjects match, e.g. ", (unsigned long long)nMatched) + firstTwo);
 
-   ADD(patternsRun, 1); ADD(matchCalls, 2 * NSUB); ADD(compared, compared); if (ref.inDomain) ADD(inDomain, 1); if (uniq) ADD(uniquePatterns, 1); if (uv) ADD(uvPatterns, 1);
+   ADD(patternsRun, 1); ADD(matchCalls, 3 * NSUB); ADD(compared, compared); if (ref.inDomain) ADD(inDomain, 1); if (uniq) ADD(uniquePatterns, 1); if (uv) ADD(uvPatterns, 1);
    const verif::Hash128 h = verif::HashStr(bits);
    c.Outcome(verif::Fmt("%d%d%d%d:%016llx%016llx", (int)stA.IsOK(), (int)uniq, (int)uv, (int)ref.inDomain, (unsigned long long)h.a, (unsigned long long)h.b));
 }
@@ -269,7 +275,7 @@ int main(int argc, char ** argv)
    if (args.WantPart("patterns")) {
       mutx::Runner R(args, res, "patterns" + suffix); R.SetCpuLimit(20); R.SetDeadline(args.t0 + T * 0.75);
       verif::Part & p = R.Run(nPat, PatternCase, PatternDesc);
-      p.rule = verif::Fmt("one case per simple-syntax pattern: ALL strings of length <=%d over the 18 symbols {a b 1 2 * ? [ ] ( | ) , ~ < > - \\ `} (length-ordered index)%s; each pattern is set on a fresh StringMatcher and on one that previously held a different kind of pattern, and matched against ALL %llu subjects of length <=3 over {a b 1 2 * \\ , ~ < `}; Match() is compared with ref/refmatch.h for patterns inside the reference's domain (well-formed documented syntax) and subjects inside it (range lists: non-numbers and pure digit strings); for every pattern: fresh==re-used, IsPatternUnique() => <=1 subject matches (and, in domain, exactly RemoveEscapeChars(pattern)), IsPatternListOfUniqueValues() => match set == comma-split literals; a case is distinct by its pattern, an outcome by (status, flags, match bit-vector)",
+      p.rule = verif::Fmt("one case per simple-syntax pattern: ALL strings of length <=%d over the 18 symbols {a b 1 2 * ? [ ] ( | ) , ~ < > - \\ `} (length-ordered index)%s; each pattern is set on a fresh StringMatcher, on one that previously held a different kind of pattern and on one that is then handed its own pattern again (sm.SetPattern(sm.GetPattern()), then self-assignment), and matched against ALL %llu subjects of length <=3 over {a b 1 2 * \\ , ~ < `}; Match() is compared with ref/refmatch.h for patterns inside the reference's domain (well-formed documented syntax) and subjects inside it (range lists: non-numbers and pure digit strings); for every pattern: fresh==re-used, IsPatternUnique() => <=1 subject matches (and, in domain, exactly RemoveEscapeChars(pattern)), IsPatternListOfUniqueValues() => match set == comma-split literals; a case is distinct by its pattern, an outcome by (status, flags, match bit-vector)",
                          maxlen, g_slice > 1 ? verif::Fmt(", systematic slice: every %d-th index", g_slice).c_str() : "", (unsigned long long)g_subjects.size());
       p.bound_completed = p.exhaustive ? maxlen : -1;
       p.transitions = g_cnt->matchCalls; p.evaluations = g_cnt->compared; p.states = g_cnt->patternsRun;
